@@ -1335,6 +1335,20 @@ func runRG(dir string, seed uint64, n int) {
 				}
 			case k < 84:
 				g.syncUnknown(rng)
+			case k < 87:
+				// a release report of NOBODY (`ReleasePlayers(t, [])`): what a table broken with no player left sends, and what
+				// `ASys.ok` allows for every table id at every time — also before the start, also for a table nobody knows;
+				// it moves nobody and must not open, fill or count anything the other operations would not
+				t := g.pickTable(rng)
+				if t < 0 || rng.Chance(0.3) {
+					t = 900 + rng.Intn(5)
+				}
+				g.nilBatch = rng.Chance(0.3)
+				g.release(t, nil)
+				o.Count("rg.empty_release_reports")
+				if g.status == "pending" {
+					o.Count("rg.empty_release_reports.pending")
+				}
 			default:
 				g.settlePhase(rng, &maxSweeps)
 			}
